@@ -1,23 +1,36 @@
 (* C09 — Configuration text is read back faithfully.
    Only theorem statements (closed by [exact]), non-vacuity examples, Print Assumptions.
 
-   Reading guide (definitions in C08/PrintModel.v, all executable):
+   Reading guide (definitions in C08/PrintModel.v, C08/MetaModel.v, C08/ShapeFlat.v, all executable):
    * [item]: Opt name value | Sec name children — a tree of named sections and
      name=value options; [abs_items] is the node forest it denotes (an empty value is
      no value); [parse_tree st a text] is mpt_parse_node into an empty target with the
      format of style [st] and name flags [a]: (return code, resulting forest).
+   * [a : allow] holds the name flags AND the variant of mpt_parse_option ([araw a]):
+     false = /repo before docs/C09_option_name_blank.diff, true = with it.  Every theorem
+     is stated for all [a], that is for both variants.
    * [print st deco items] writes the forest in style [st]; [deco] is ANY list of
      decoration records (blank lines, indentation, comment lines, blanks around the
      delimiters, trailing blanks and comments, quoting choice, brace placement) — the
      printer uses their white space as white space and their comment text without
      newlines, so every value of [deco] is an insignificant decoration.
    * [wf_items st a items]: every name is non-empty, accepted by the name flags [a]
-     (mpt_parse_ncheck), free of newline / delimiters / comment character / path
-     separator, without blanks at its ends, at most 65534 bytes; every value consists
-     of bytes 1..255, can be written plain or does not end in a backslash, and is
-     shorter than 2^31 bytes.  Values of ANY such length: no 255 / 65535 limit. *)
+     (mpt_parse_ncheck), free of newline / comment character / path separator, without
+     blanks at its ends, at most 65534 bytes, and free of the characters that end it in its
+     style and role (prefix style: braces and the assign character; option names of the other
+     styles: the assign character, and the line must not begin with the section start character;
+     section names: white space in the enclosed family, the closing bracket in the separated
+     style); white space other than the newline may stand inside names wherever the code reads
+     it back (for [araw a = false] not directly behind the first character of an option name of
+     the enclosed / separated family: the defect, see C09_option_name_blank_refuted); every
+     value consists of bytes 1..255, can be written plain or does not end in a backslash, and
+     is shorter than 2^31 bytes.  Values of ANY such length: no 255 / 65535 limit.
+     Enclosed and separated style in addition: options first, then sections holding options
+     only; "[x] = #": options only.  C09_*_flat_only below show that these are exactly the
+     shapes those styles can carry. *)
 From Coq Require Import List ZArith.
-From MptV Require Import C08.ParseModel C08.PrintModel C08.RoundMain C08.RoundFlatMain.
+From MptV Require Import C08.ParseModel C08.PrintModel C08.RoundMain C08.RoundFlatMain
+  C08.ShapeFlat C08.RoundWitness C08.MetaModel C08.MetaProofs.
 Import ListNotations.
 Local Open Scope Z_scope.
 
@@ -39,44 +52,124 @@ Theorem C09_decoration_irrelevant :
 Proof. exact pre_decoration_irrelevant. Qed.
 
 (* Enclosed style ("%x% = #": a section runs from  %name  to the next % or the end) and
-   separated style ("[ ] = #":  [ name ]  ...).  Full statement wanted: as above for every
-   tree.  Proved: the statement for every tree these styles can express at all
-   — options first, then sections holding options only (one level: the next section start ends
-   the open one, mptcore/parse/parse_format_sep.c documents "depth is limited to one") —
-   with names free of white space (a first name character followed by a blank is read
-   through mpt_parse_nextvis, which drops the blank).  Those conditions are part of
-   [wf_items StEnc / StSep]; everything else (decoration, values, flags) is as general as above. *)
-Theorem C09_print_parse_roundtrip_enc_partial :
+   separated style ("[ ] = #":  [ name ]  ...): the same for every tree these styles can
+   carry — options first, then sections holding options only (C09_enc_flat_only /
+   C09_sep_flat_only: NO text yields another shape) — with names that hold white space, the
+   assign character (section names) and the section delimiters wherever the code reads them back. *)
+Theorem C09_print_parse_roundtrip_enc :
   forall a deco items,
     wf_items StEnc a items = true ->
     parse_tree StEnc a (print StEnc deco items) = (0, abs_items items).
 Proof. exact enc_roundtrip. Qed.
 
-Theorem C09_print_parse_roundtrip_sep_partial :
+Theorem C09_print_parse_roundtrip_sep :
   forall a deco items,
     wf_items StSep a items = true ->
     parse_tree StSep a (print StSep deco items) = (0, abs_items items).
 Proof. exact sep_roundtrip. Qed.
 
 (* Enclosed family with distinct delimiters ("[x] = #"): the code cannot end a section in this
-   variant, so it carries option lists only; those are read back. *)
-Theorem C09_print_parse_roundtrip_encd_partial :
+   variant (C09_encd_options_only), so it carries option lists only; those are read back. *)
+Theorem C09_print_parse_roundtrip_encd :
   forall a deco items,
     wf_items StEncD a items = true ->
     parse_tree StEncD a (print StEncD deco items) = (0, abs_items items).
 Proof. exact encd_roundtrip. Qed.
 
-Theorem C09_decoration_irrelevant_enc_partial :
+Theorem C09_decoration_irrelevant_enc :
   forall a deco1 deco2 items,
     wf_items StEnc a items = true ->
     parse_tree StEnc a (print StEnc deco1 items) = parse_tree StEnc a (print StEnc deco2 items).
 Proof. exact enc_decoration_irrelevant. Qed.
 
-Theorem C09_decoration_irrelevant_sep_partial :
+Theorem C09_decoration_irrelevant_sep :
   forall a deco1 deco2 items,
     wf_items StSep a items = true ->
     parse_tree StSep a (print StSep deco1 items) = parse_tree StSep a (print StSep deco2 items).
 Proof. exact sep_decoration_irrelevant. Qed.
+
+(* ---- what the enclosed / separated styles cannot carry ----
+   [flat_forest ts]: ts = options ++ sections, every option a leaf, every section without value and
+   with leaves as children.  Whatever the text (ANY byte string, not only printed ones), whatever
+   the flags as long as nameless data lines are refused (name flag "empty" off for options; with it
+   a nameless data line adopts the next element as a child, ShapeFlat.sep_empty_name_nests), a
+   successful or failed mpt_parse_node builds a flat forest.  Hence a tree with nesting below a
+   section, or with an option behind a section, is the parse of NO text in these styles. *)
+Theorem C09_enc_flat_only :
+  forall a text, flag (aopt a) NFEmpty = false -> flat_forest (snd (parse_tree StEnc a text)) = true.
+Proof. exact enc_flat. Qed.
+
+Theorem C09_sep_flat_only :
+  forall a text, flag (aopt a) NFEmpty = false -> flat_forest (snd (parse_tree StSep a text)) = true.
+Proof. exact sep_flat. Qed.
+
+Theorem C09_encd_options_only :
+  forall a text, flag (aopt a) NFEmpty = false -> forallb leaf (snd (parse_tree StEncD a text)) = true.
+Proof. exact encd_leaves. Qed.
+
+Theorem C09_enc_inexpressible :
+  forall a text ts, flag (aopt a) NFEmpty = false -> flat_forest ts = false -> snd (parse_tree StEnc a text) <> ts.
+Proof. exact enc_inexpressible. Qed.
+
+Theorem C09_sep_inexpressible :
+  forall a text ts, flag (aopt a) NFEmpty = false -> flat_forest ts = false -> snd (parse_tree StSep a text) <> ts.
+Proof. exact sep_inexpressible. Qed.
+
+(* what the printer's text of such a tree is read as: the inner section start ends the outer section
+   (the prefix style reads the same tree back); an option behind a section joins that section *)
+Theorem C09_nested_sections_flattened :
+  forall st, st = StEnc \/ st = StSep ->
+    parse_tree st a_patched (print st [] w_nested) = (0, [T [97] None []; T [98] None [T [107] (Some [49]) []]]) /\
+    parse_tree StPre a_patched (print StPre [] w_nested) = (0, abs_items w_nested).
+Proof. exact nested_flattened. Qed.
+
+Theorem C09_option_after_section_joins :
+  forall st, st = StEnc \/ st = StSep ->
+    parse_tree st a_patched (print st [] w_after) = (0, [T [97] None [T [107] (Some [49]) []]]) /\
+    parse_tree StPre a_patched (print StPre [] w_after) = (0, abs_items w_after).
+Proof. exact option_after_section. Qed.
+
+(* a section name of the enclosed style ends at the first white space (the separated style reads it back) *)
+Theorem C09_enc_section_name_blank_differs :
+  parse_tree StEnc a_patched (print StEnc [] w_encsec) = (0, [T [97] None [T [98; 32; 107] (Some [49]) []]]) /\
+  parse_tree StEnc a_asis (print StEnc [] w_encsec) = (0, [T [97] None [T [98; 107] (Some [49]) []]]) /\
+  forall a, a = a_asis \/ a = a_patched -> parse_tree StEnc a (print StEnc [] w_encsec) <> (0, abs_items w_encsec).
+Proof. exact enc_section_blank. Qed.
+
+(* ---- the defect (docs/C09_option_name_blank.diff) ----
+   Full statement wanted for the code as it is: the three round trip theorems above with the names
+   that are well formed for the patched variant.  Refuted: the option  a b = 1  is read back as "ab"
+   in all three styles by the code as it is (and exactly by the patched variant). *)
+Theorem C09_option_name_blank_refuted :
+  exists st items deco,
+    wf_items st a_patched items = true /\
+    parse_tree st a_asis (print st deco items) <> (0, abs_items items).
+Proof. exact option_name_blank_refuted. Qed.
+
+Theorem C09_option_name_blank_witness :
+  forall st, st = StEnc \/ st = StSep \/ st = StEncD ->
+    wf_items st a_patched w_blank = true /\
+    parse_tree st a_patched (print st [] w_blank) = (0, abs_items w_blank) /\
+    parse_tree st a_asis (print st [] w_blank) = (0, [T [97; 98] (Some [49]) []]).
+Proof. exact option_name_blank_asis. Qed.
+
+(* ---- the value store behind a node (mpt_meta_new, basic and buffer metatype) ----
+   For every text (any length: 249 bytes and less in the basic metatype, more in a buffer metatype),
+   every history of creations (mpt_meta_new from a vector or a string, mpt_meta_geninfo, mpt_meta_buffer), conversions (type list, string, vector of char, iterator, metatype,
+   buffer), addref and clone: every view that is answered shows exactly the text stored last — the
+   string view the text, the vector view the text and at most one terminator, the iterator the text as
+   its only element — and a clone holds the same text (AS PATCHED by docs/C09_geninfo_clone.diff). *)
+Theorem C09_value_views_faithful :
+  forall v ops, spec_run v None None ops = meta_run v None ops.
+Proof. exact meta_views_faithful0. Qed.
+
+Theorem C09_value_reads_text :
+  forall v k t op, is_new op = false -> obs_ok t (snd (meta_step v (Some (k, t)) op)) = true.
+Proof. exact meta_reads_text. Qed.
+
+Theorem C09_clone_keeps_text :
+  forall v k t, exists k', fst (meta_step v (Some (k, t)) OClone) = Some (k', t).
+Proof. exact meta_clone_text. Qed.
 
 (* ---- non-vacuity ---- *)
 Definition tree1 : list item :=
@@ -116,10 +209,50 @@ Example C09_ex_sep :
   (0, abs_items [Opt [116] [49]; Sec [115] [Opt [107;107] [118;32;119]]; Sec [117] []]).
 Proof. vm_compute. reflexivity. Qed.
 
+(* names with white space, delimiter and assign characters inside, code as it is *)
+Example C09_ex_rich_sep :
+  wf_items StSep a_asis w_rich_sep = true /\
+  parse_tree StSep a_asis (print StSep [] w_rich_sep) = (0, abs_items w_rich_sep).
+Proof. exact rich_names_sep. Qed.
+Example C09_ex_rich_enc :
+  wf_items StEnc a_asis w_rich_enc = true /\
+  parse_tree StEnc a_asis (print StEnc [] w_rich_enc) = (0, abs_items w_rich_enc).
+Proof. exact rich_names_enc. Qed.
+
+(* flat forests: two sections are one; a nameless data line shows why the hypothesis on the flag is there *)
+Example C09_ex_flat :
+  flat_forest (snd (parse_tree StSep allow_named text_sep2)) = true /\
+  flat_forest (snd (parse_tree StSep allow_init text_sep_bad)) = false.
+Proof. vm_compute. split; reflexivity. Qed.
+
+(* the value store: 249 bytes stay in the basic metatype also when cloned, 250 bytes live in a buffer *)
+Example C09_ex_store :
+  let v := repeat 118 249%nat in
+  meta_run v None [ONewV; OKind; OClone; OKind; OStr] =
+    [BNew true; BKind 0 [115]; BClone true; BKind 0 [115]; BStr (inr v)] /\
+  meta_run (118 :: v) None [ONewV; OKind; OStr; OIter] =
+    [BNew true; BKind 256 [134; 11; 67]; BStr (inl BadType); BIter (inr ([(true, 118 :: v)], 0, 115))] /\
+  meta_run (118 :: v) None [ONewG; OVec; ONewB; OVec; OIter] =
+    [BNew false; BNone; BNew true; BVec 250 (118 :: v); BIter (inr ([(false, 118 :: v)], 0, 67))].
+Proof. vm_compute. repeat split; reflexivity. Qed.
+
 Print Assumptions C09_print_parse_roundtrip.
 Print Assumptions C09_decoration_irrelevant.
-Print Assumptions C09_print_parse_roundtrip_enc_partial.
-Print Assumptions C09_print_parse_roundtrip_sep_partial.
-Print Assumptions C09_print_parse_roundtrip_encd_partial.
-Print Assumptions C09_decoration_irrelevant_enc_partial.
-Print Assumptions C09_decoration_irrelevant_sep_partial.
+Print Assumptions C09_print_parse_roundtrip_enc.
+Print Assumptions C09_print_parse_roundtrip_sep.
+Print Assumptions C09_print_parse_roundtrip_encd.
+Print Assumptions C09_decoration_irrelevant_enc.
+Print Assumptions C09_decoration_irrelevant_sep.
+Print Assumptions C09_enc_flat_only.
+Print Assumptions C09_sep_flat_only.
+Print Assumptions C09_encd_options_only.
+Print Assumptions C09_enc_inexpressible.
+Print Assumptions C09_sep_inexpressible.
+Print Assumptions C09_nested_sections_flattened.
+Print Assumptions C09_option_after_section_joins.
+Print Assumptions C09_enc_section_name_blank_differs.
+Print Assumptions C09_option_name_blank_refuted.
+Print Assumptions C09_option_name_blank_witness.
+Print Assumptions C09_value_views_faithful.
+Print Assumptions C09_value_reads_text.
+Print Assumptions C09_clone_keeps_text.
